@@ -11,15 +11,17 @@ TECHNIQUE = "explicit-state BFS over real objects, lock-step task-state referenc
 RULE = ("BFS over histories of {scheduler tick, pause(i), resume(i), stop(i), whenDone(i), fire the Deferred task i waits on "
         "ok / failed, Cooperator.stop(), add a task by cooperate()/coiterate()} on a real Cooperator(scheduler=manual, "
         "terminationPredicateFactory=k work units) holding <= 3 tasks; what each iterator does on each next() call "
-        "{yield value, yield unfired Deferred, yield already-fired Deferred, yield already-failed Deferred, StopIteration, raise} "
+        "{yield value, yield unfired Deferred, yield already-fired Deferred, yield already-failed Deferred, StopIteration, raise; "
+        "for k=1 also: pause() own task then yield, stop() own task then yield, stop() own task then StopIteration} "
         "is part of the tick event, so every iterator script up to the depth is covered. After every transition the real "
         "objects are compared with a per-task reference (runnable / user-paused n times / waiting / finished(reason)). "
         "non-trivial = distinct canonical states in which some task is paused, waiting, finished or the cooperator is stopped")
 BOUNDS = {"quick": "depth 6; k in {1,2}; 1..3 initial tasks (each cooperate or coiterate), <= 3 tasks in total",
           "thorough": "depth 7 for k in {1,2} (6 behaviours per next()); depth 6 for k=3 (4 behaviours per next())"}
 ASSUMPTIONS = [
-    "operations are issued between scheduler ticks / Deferred firings (no re-entrant pause/stop from inside next() or from "
-    "inside a whenDone callback); resume() is only issued to undo the harness's own pause()",
+    "operations are issued between scheduler ticks / Deferred firings, plus (k=1 only) pause()/stop() of its own task from "
+    "inside an iterator's next(); no operations from inside whenDone callbacks; resume() is only issued to undo a pause() "
+    "issued by the harness or by the iterator itself",
     "completion Deferreds must have fired by the time the operation that finishes the task returns (nothing else could fire "
     "them later: the scheduler is manual)",
     "starvation: while only ticks happen and the set of runnable tasks (R of them) does not change, no runnable task sees more "
@@ -32,12 +34,13 @@ ASSUMPTIONS = [
     "_pauseCount / _completionState class), order of Cooperator._tasks, remaining part of Cooperator._metarator, pending "
     "scheduler calls, starvation counters; private attributes are read for canonicalisation only",
 ]
-MIN = {"quick": {"states": 20000, "nontrivial": 15000, "outcomes": 8}}
+MIN = {"quick": {"states": 150000, "nontrivial": 145000, "outcomes": 7}}
 
 BEH6 = ("V", "D", "S", "R", "Ds", "Df")
+BEH9 = BEH6 + ("P", "X", "XS")     # the iterator pauses / stops its own task from inside next(), then yields / finishes
 BEH4 = ("V", "D", "S", "R")
-TIERS = {"quick": [(1, 6, BEH6), (2, 6, BEH6)],
-         "thorough": [(1, 7, BEH6), (2, 7, BEH6), (3, 6, BEH4)]}
+TIERS = {"quick": [(1, 6, BEH9), (2, 6, BEH6)],
+         "thorough": [(1, 7, BEH9), (2, 7, BEH6), (3, 6, BEH4)]}
 MAXTASKS = 3
 REASON_EXC = {"done": "TaskDone", "failed": "TaskFailed", "stopped": "TaskStopped", "schedstopped": "SchedulerStopped"}
 
@@ -107,6 +110,7 @@ class St:
         self.coop_stopped = False
         self.last = "init"
         self.units_in_tick = 0
+        self.reent = ""
 
         def factory():
             n = [0]
@@ -132,7 +136,7 @@ class St:
         try:
             return f(*a)
         except Exception as e:
-            self.flag("Cooperator:%s-raised-%s" % (what, type(e).__name__), "%s: %r after %s" % (what, e, self.last))
+            self.flag("Cooperator:%s-raised-%s%s" % (what, type(e).__name__, self.reent), "%s: %r after %s" % (what, e, self.last))
             return None
 
     # -- reference updates ----------------------------------------------------
@@ -179,9 +183,22 @@ class St:
         self.window.append(i)
         self.units_in_tick += 1
         b = self.behq.pop(0) if self.behq else "V"
+        if t.task is None:
+            b = {"P": "V", "X": "V", "XS": "S"}.get(b, b)    # a coiterate()d iterator has no task handle
         if b == "V" or t.fin is not None:
             return i
         self.window = []
+        if b == "P":
+            t.u += 1
+            self.real("pause-from-inside-next", t.task.pause)
+            return i
+        if b in ("X", "XS"):
+            self.finish(t, "stopped")
+            self.reent = "-after-iterator-stopped-own-task-and-" + ("yielded" if b == "X" else "finished")
+            self.real("stop-from-inside-next", t.task.stop)
+            if b == "X":
+                return i
+            raise StopIteration()
         if b == "D":
             t.waiting = defer.Deferred()
             return t.waiting
@@ -200,6 +217,7 @@ class St:
     def apply(self, ev):
         op = ev[0]
         self.last = op if op != "fire" else ("fire-ok" if ev[2] else "fire-fail")
+        self.reent = ""
         if op != "tick":
             self.window = []
         if op == "tick":
@@ -293,6 +311,8 @@ class St:
 
     def post(self):
         from twisted.internet import task as ttask
+        if self.bad:
+            return      # one signature per violating state: the first failure; the state is not expanded further
         # tasks that were paused / waiting when the cooperator was stopped
         for t in self.tasks:
             if t.limbo and t.fin is None:
@@ -460,7 +480,8 @@ def run_shard(shard, tier, seed):
             stats.nt((tuple(shard[1]), shard[0], st.canon()))
 
     res = bfs(make, lambda st, ev: st.apply(ev), lambda st: st.enabled(), lambda st: st.canon(),
-              lambda st, hist: list(st.bad), depth, on_state=on_state)
+              lambda st, hist: list(st.bad), depth, on_state=on_state,
+              max_violations=10 ** 6)   # known findings must not use up the violation slots of other signatures
     stats.add_bfs(res, {"shard": shard, "tier": tier})
     return stats
 
